@@ -21,7 +21,7 @@ func XMultiSameMethod() *spec.Spec {
 
 // Extended returns the extended families (everything beyond the documented core combinations).
 func Extended(thorough bool) []*spec.Spec {
-	out := []*spec.Spec{XMultiSameMethod(), XCrossFile(), XTwoServiceFiles(), XTimestampCards(), XTimestampCardsFmt(), XEmptyOrders(), XOneofSiblings(), XSharedMethodHeader(), XQuotedHeaderTexts(), XQuotedAnnotationValues(), XForeignResponse(), XSameNamedNestedEnums(), XOneofVariantShapes(), XInt64Cards(), XHeaderNameShapes(), XParamNameClashes(), XHeaderOverrideShapes(), XUnwrapWrapperShapes(), XProto2Basic(), XSharedTypesAcrossServiceFiles()}
+	out := []*spec.Spec{XMultiSameMethod(), XCrossFile(), XTwoServiceFiles(), XTimestampCards(), XTimestampCardsFmt(), XEmptyOrders(), XOneofSiblings(), XSharedMethodHeader(), XQuotedHeaderTexts(), XQuotedAnnotationValues(), XForeignResponse(), XSameNamedNestedEnums(), XOneofVariantShapes(), XInt64Cards(), XHeaderNameShapes(), XParamNameClashes(), XHeaderOverrideShapes(), XUnwrapWrapperShapes(), XProto2Basic(), XSharedTypesAcrossServiceFiles(), XHeaderTypeFormat()}
 	out = append(out, XAnnotationCards()...)
 	out = append(out, XIdentifierShapes()...)
 	out = append(out, CtxSpecs()...)
@@ -542,4 +542,24 @@ func XSharedTypesAcrossServiceFiles() *spec.Spec {
 		Services: []*spec.Service{spec.Svc("BetaService", "/beta", spec.RPC("GetBeta", "BetaReq", "BetaResp", "POST", "/get"), spec.RPC("EchoPlace", "Place", "Place", "POST", "/place"))}}
 	s := &spec.Spec{Name: "x_shared_svc_files", Files: []*spec.File{common, alpha, beta}}
 	return withCell(s, "ext/unit=shared_types_across_service_files", "extended", "valid", "genonly", "multifile")
+}
+
+// XHeaderTypeFormat: the declaration family of string headers - every format (none, uuid, email, date-time, date, time) declared
+// with type "string" and with the type left unset (which means string everywhere), one RPC per format carrying both spellings
+// as required method-level headers.
+func XHeaderTypeFormat() *spec.Spec {
+	msgs := []*spec.Message{spec.M("Req", spec.F("name", "string")), spec.M("Out", spec.F("ok", "bool"))}
+	svc := spec.Svc("TypeFormatService", "/tf")
+	for _, f := range []string{"", "uuid", "email", "date-time", "date", "time"} {
+		n := strings.ReplaceAll(f, "-", "")
+		if n == "" {
+			n = "plain"
+		}
+		title := strings.ToUpper(n[:1]) + n[1:]
+		svc.Methods = append(svc.Methods, spec.RPC("With"+title, "Req", "Out", "POST", "/"+n).H(
+			&spec.Header{Name: "X-Typed-" + title, Type: "string", Format: f, Required: true},
+			&spec.Header{Name: "X-Untyped-" + title, Type: "", Format: f, Required: true}))
+	}
+	f := &spec.File{Messages: msgs, Services: []*spec.Service{svc}}
+	return withCell(spec.One("x_header_type_format", f), "ext/unit=header_type_format", "extended", "valid")
 }
